@@ -220,9 +220,10 @@ class SimplePatternMatcher(PatternMatcher):
         if isinstance(pattern_value, _pattern_ir.BacktrackingOr):
             for i, pattern_choice in enumerate(pattern_value._values):
                 self._match.enter_new_match()
-                if self._match_value(pattern_choice, value):
-                    if pattern_value.tag_var is not None:
-                        self._match.bind(pattern_value.tag_var, pattern_value._tag_values[i])
+                if self._match_value(pattern_choice, value) and (
+                    pattern_value.tag_var is None
+                    or self._match.bind(pattern_value.tag_var, pattern_value._tag_values[i])
+                ):
                     self._match.merge_current_match()
                     return True
                 self._match.abandon_current_match()
